@@ -106,6 +106,25 @@ def heavy_for_reference(spec):
     return bool(heavy)
 
 
+def heavy_for_tensor(spec):
+    """default.tensor applies k-qubit gates through quimb's swap+split machinery: gates on >= 4 wires can take minutes (cost only)."""
+    found = []
+
+    def walk(s, extra=0):
+        k = len(s.get("wires", [])) + extra
+        if s["t"] in ("named", "qu", "cqu", "diag", "grover") and k >= 4:
+            found.append(s["t"])
+        if s["t"] == "ctrl":
+            walk(s["base"], extra + len(s["control"]))
+        elif "base" in s:
+            walk(s["base"], extra)
+        for f in s.get("factors", []):
+            walk(f, extra)
+    for s in spec["ops"]:
+        walk(s)
+    return bool(found)
+
+
 def devices_for(profile, spec, have_lightning):
     n = len(spec["wires"])
     kinds = {m["m"] for m in spec["meas"]}
@@ -115,7 +134,7 @@ def devices_for(profile, spec, have_lightning):
         out.append("default.mixed")
     if profile == "general" and n <= 4 and len(spec["ops"]) <= 7 and not heavy_for_reference(spec):
         out.append("reference.qubit")
-    if kinds <= {"state", "expval", "var"} and n <= 6 and "probs_op" not in kinds:
+    if kinds <= {"state", "expval", "var"} and n <= 6 and "probs_op" not in kinds and not heavy_for_tensor(spec):
         out += ["default.tensor/mps", "default.tensor/tn"]
     if profile == "clifford":
         out.append("default.clifford")
